@@ -149,6 +149,8 @@ func (p *pki) serverCert(identity, ip string) tls.Certificate {
 		t.NotBefore, t.NotAfter = now.Add(-2*y), now.Add(-y)
 	case "notyet":
 		t.NotBefore, t.NotAfter = now.Add(y), now.Add(2*y)
+	case "firstname": // a genuine certificate of a configured CA, but naming the FIRST endpoint's address
+		t.IPAddresses = []net.IP{net.ParseIP("127.0.0.1")}
 	case "othername":
 		t.IPAddresses = []net.IP{net.ParseIP("127.0.0.99")}
 		t.DNSNames = []string{"ca.example"}
